@@ -304,6 +304,15 @@ def gen_hist_case(rng):
         kw.append([star, ['q', seq, rng.choice(['list', 'tuple'])]])
         rng.shuffle(kw)
         calls.append(kw)
+    # a later call without a value an earlier call supplied (KeyError is due, whatever was generated before), and the
+    # same call once more (the same path is then requested and matched a second time)
+    if rng.random() < 0.4:
+        i = rng.randrange(1, len(calls) + 1)
+        short = [kv for kv in calls[i - 1]]
+        short.pop(rng.randrange(len(short)))
+        calls.insert(i, short)
+    if rng.random() < 0.4:
+        calls.append([kv for kv in calls[rng.randrange(len(calls))]])
     return {'kind': 'hist', 'route': ['r', pattern], 'calls': calls, 'meta': {'hist': 1}}
 
 
@@ -337,9 +346,23 @@ def gen_req_case(rng):
     env['script_name'] = rng.choice(P17.SCRIPTS) if rng.random() < 0.7 else ''
     steps = []
 
+    k = rng.choice([0, 1, 1, 2])
+    eqforms = [['i', k], ['n', k, '%d.0' % k]] + ([['n', k, 'True' if k else 'False']] if k in (0, 1) else [])
+    eqtail = [['s', rng.choice(['rev', 'a b', 'x'])]] if rng.random() < 0.5 else []
+    mode = rng.choice(['base', 'base', 'equal', 'equal', 'none'])
+
     def gen_step():
-        els = base['elements'] if rng.random() < 0.5 else []
-        return ['gen', els, base['ov'], base['kw']]
+        if mode == 'equal':
+            els = eqtail + [rng.choice(eqforms)]
+        elif mode == 'base':
+            els = base['elements'] if rng.random() < 0.5 else []
+        else:
+            els = []
+        kw = base['kw']
+        if kw and steps and rng.random() < 0.2:
+            kw = [kv for kv in kw]
+            kw.pop(rng.randrange(len(kw)))        # a value an earlier generation supplied is left out now
+        return ['gen', els, base['ov'], kw]
     if rng.random() < 0.85:
         steps.append(gen_step())
     for _ in range(rng.choice([1, 1, 2, 3])):
